@@ -295,7 +295,13 @@ theorem meas_stepC_c (h : stepC s = some s')
       exact meas_toNextCall (by rw [hpc]; simp [pos])
   case exitPut i =>
     split at h
-    · cases h
+    · -- full queue, everybody listed has exited: straight to `done`
+      split at h
+      · simp only [Option.some.injEq] at h; subst h
+        refine meas_lt_C0 rfl rfl rfl ?_ (mF_congr rfl rfl rfl rfl) (mW_congr rfl) (mR_congr rfl rfl) (mQ_congr rfl rfl) ?_
+        · simp [preStart, hpc]
+        · simp only [hpc]; simp [pos]
+      · cases h
     · split at h
       · rename_i hlt
         simp only [Option.some.injEq] at h; subst h
